@@ -191,8 +191,27 @@ def fake_sampler_cli(world):
         samples = ideal_uniform_samples(w, clauses, nvars, ind, num)
         if not samples:
             return CompletedProcessLike(command, 0, b"c The input formula is unsatisfiable.\n")
-        out = "c UniGen (sim)\n" + "".join("v " + " ".join(str(l) for l in smp) + " 0:1\n" for smp in samples)
-        w.log.append(("peer.sample", "cli-unigen", num, _sha1(out)))
+        listed = []
+        prng = w.stream("unigen-prelist-%d" % w.counters.get("peer.solve", 0))
+        if prng.random() < 0.6:
+            # the one thing the library's reader says about the executable's output beyond "comment lines start with c":
+            # when the solution space is small the executable announces "we found only N, ..." and lists those N
+            # solutions before the samples proper (sample_uniform drops the first N solution lines).  The genuine
+            # binary cannot be run here; the fake speaks the protocol the reader is written for, on small spaces only.
+            try:
+                vars_, models = enumerate_models(clauses, nvars, 6, tuple(ind))
+                listed = [[v if b else -v for v, b in zip(vars_, m)] for m in models]
+            except HarnessCap:
+                listed = []
+        fmt = lambda smp: "v " + " ".join(str(l) for l in smp) + " 0:1\n"
+        out = "c UniGen (sim)\n"
+        if listed:
+            w.count("peer.unigen-prelisted")
+            out += "c [appmc] we found only %d, so exact sampling is used\n" % len(listed) + "".join(fmt(m) for m in listed)
+            out += "c [unigen] samples follow\n"
+        out += "".join(fmt(smp) for smp in samples)
+        w.unigen_samples.extend(samples)
+        w.log.append(("peer.sample", "cli-unigen", num, len(listed), _sha1(out)))
         return CompletedProcessLike(command, 0, out.encode())
     return run
 
